@@ -5,10 +5,11 @@ Open Scope N_scope.
 Open Scope bool_scope.
 
 (* codes 1..14, 20: clause of WellFormed violated by a block the implementation stored;
-   30: a delivery without commit changed the store *)
+   30: a delivery without commit changed the store; 40: the node panicked while handling a delivered block *)
 Definition c05_pf (cfg : config) (n0 n1 : node) (b : block) (now : N) (o : obs) : N :=
   let newly := match get_block n0 (b_hash b) with Some _ => false | None => true end in
-  if (ob_commits o =? 0) && negb (ob_notrace o) then 30
+  if ob_crash o then 40   (* the node code panicked on a delivered block instead of rejecting it *)
+  else if (ob_commits o =? 0) && negb (ob_notrace o) then 30
   else if ob_acc o && newly then wellformed cfg n0 b now
   else 0.
 
